@@ -127,6 +127,13 @@ def chk (st : HSt) (e : ILEffect) (bare : List String) (after : Bool := false) :
     -- the effect itself is never an `Empty` instance here (a Sequence that renders as EMPTY() is kept)
     ((if after then .seqn ([e] ++ deps) else .seqn (deps ++ [e])), { st with pending := rest })
 
+/-- the pass-through arguments of a call (`bundle`, `HEX_REG_FIELD_USR_OVF`): printed verbatim -/
+def extArgs (exts : List String) : List ILPure := exts.map (fun x => .ext (.id x))
+
+/-- the effect of a call of a void sub-routine: `hex_<name>(exts…, args…)` -/
+def vcallEffect (name : String) (exts : List String) (cargs : List ILPure) : ILEffect :=
+  .call ("hex_" ++ name) (extArgs exts ++ cargs)
+
 def gccTmpOf (st : HSt) (c : CE) : Option String :=
   match c.il with
   | .varl n => if st.pending.any (fun p => p.tmp == n && p.gcc) then some n else none
@@ -253,6 +260,18 @@ def compileExprH (env : CEnv) (st : HSt) : CExpr → Except String (CE × HSt)
       let st := { st with hyb := st.hyb + 1 }
       let p : Pend := { tmp := tmp, deps := [], exec := stmt, setTmp := .setl tmp (.varl v), setFirst := false, gcc := true }
       .ok ({ il := .varl tmp, ty := t.toVT, kind := .plain }, { st with pending := st.pending ++ [p] })
+  | .seqexpr name exts args params val => do
+      -- `({ name(exts…, args…); val; })`: a GCCStmtDeclExpr whose statement is the void call (an Effect that is
+      -- not `chk_hybrid_dep`'ed on its own) and whose value is `val`; children are transformed left to right
+      let (cargs, st) ← compileArgsH env st args params
+      let (cv, st) ← compileExprH env st val
+      let tmp := s!"h_tmp{st.hyb}"
+      let st := { st with hyb := st.hyb + 1 }
+      -- chk_hybrid_dep on [hybrid, set_tmp]: pending sequences of the arguments and of the value are pulled in front
+      let (popped, rest) := popPending st.pending (tmpsOfPures cargs ++ tmpsOfPure cv.il)
+      let p : Pend := { tmp := tmp, deps := popped.map Pend.render, exec := vcallEffect name exts cargs,
+                        setTmp := .setl tmp cv.il, setFirst := false, gcc := true }
+      .ok ({ il := .varl tmp, ty := cv.ty, kind := .plain }, { st with pending := rest ++ [p] })
   | e => do
       -- leaves and loads: no side effects
       let r ← compileExpr env e
@@ -374,6 +393,12 @@ def compileStmtH (env : CEnv) (st : HSt) : CStmt → Except String (Option ILEff
       let (ce, st) ← compileExprH env st e
       let src := if ce.ty.width != 64 then initACast env.cfg { signed := false, width := 64, group := 1 } ce else ce
       .ok (some (.setl "ret_val" src.il), [], st)
+  | .vcall name exts args params => do
+      -- a void SubRoutineCall is returned by `resolve_hybrid` as it is: an ordinary effect at the place of the
+      -- statement; no `chk_hybrid_dep` of its own (pending temporaries of its arguments are pulled by the enclosing
+      -- block's check, or stay pending until the end of the behaviour)
+      let (cargs, st) ← compileArgsH env st args params
+      .ok (some (vcallEffect name exts cargs), [], st)
   | .skip w =>
       if w == "cancel_slot;" then .ok (some .nop, [], st)
       else if w == "STORE_SLOT_CANCELLED(pkt, slot);" then
